@@ -71,7 +71,11 @@ impl Prop for C08 {
         let nexec = if n > 100 { 1 } else { g.usize_in(1, 3) };
         let mut execs: Vec<Vec<Param>> = Vec::new();
         for k in 0..nexec {
-            if k > 0 && g.chance(1, 2) {
+            if k > 0 && g.chance(1, 6) {
+                // exactly the same execution once more
+                let prev = execs[k - 1].clone();
+                execs.push(prev);
+            } else if k > 0 && g.chance(1, 2) {
                 // re-execution that keeps most of the previous binding: same type codes, some
                 // signedness flags flipped, fresh values (what a client does when only the values
                 // or the signedness of a bound variable change)
